@@ -331,12 +331,15 @@ def _Ry(t):
     return np.array([[c, 0, s], [0, 1.0, 0], [-s, 0, c]])
 
 
-def _check_placement(model, st, pool, index_of, values, label, resid, flags, witness):
+def _check_placement(model, st, pool, index_of, values, label, resid, flags, witness, prebuilt=None):
     """values: list in model parameter order; index_of(pool index) -> model parameter index"""
     val = lambda i: values[index_of(i)]
     names = list(model.parameters.keys())
-    built = model.scatterer_from_parameters(list(values))
-    built_d = model.scatterer_from_parameters({nm: v for nm, v in zip(names, values)})
+    if prebuilt is not None:
+        built = built_d = prebuilt
+    else:
+        built = model.scatterer_from_parameters(list(values))
+        built_d = model.scatterer_from_parameters({nm: v for nm, v in zip(names, values)})
     sites = _sites(st)
     worst = 0.0
     if st["t"] == "rigid":
@@ -375,6 +378,19 @@ def _check_placement(model, st, pool, index_of, values, label, resid, flags, wit
             worst = max(worst, err if err == err and err != float("inf") else 1.0)
     resid["placement" + label] = fnum(worst)
     return built
+
+
+def _poke(sc):
+    """edit a built scatterer the way downstream code might (shift it, change its index)"""
+    try:
+        members = getattr(sc, "scatterers", None) or [sc]
+        for m in members:
+            if hasattr(m, "center") and m.center is not None:
+                m.center = np.asarray(m.center, dtype=float) + 1.0
+            if hasattr(m, "n") and not isinstance(m.n, dict):
+                m.n = 9.75
+    except Exception:
+        pass
 
 
 def run_case(case):
@@ -474,6 +490,25 @@ def _run_struct(case):
                     flags["place.theory.spherical_aberration"] = False
                     witness.append("spherical_aberration got %r expected %r" % (th.spherical_aberration, exp))
             flags["theory_class_kept"] = bool(type(th) is type(model.theory))
+    # a caller that sweeps or optimises keeps one vector and updates it in place between builds (a list, then a numpy vector); a value
+    # vector equal to the previous one gives an equal but separate scatterer, and editing a scatterer that was handed out changes no later one
+    if names:
+        for form in ("list", "array"):
+            vec = [0.0] * len(names) if form == "list" else np.zeros(len(names))
+            for rep in range(3):
+                perm = rng.permutation(len(names))
+                for j in range(len(names)):
+                    vec[j] = 2.3 + 0.41 * float(perm[j]) + 0.02 * rep
+                b = model.scatterer_from_parameters(vec)
+                _check_placement(model, st, pool, index_of, [float(v) for v in vec], "@inplace_" + form, resid, flags, witness, prebuilt=b)
+            again = model.scatterer_from_parameters(vec)
+            flags["equal_values_give_separate_scatterers"] = bool(again is not b and digest(again) == digest(b)) and flags.get("equal_values_give_separate_scatterers", True)
+            d_b = digest(again)
+            _poke(b)
+            third = model.scatterer_from_parameters(vec)
+            if digest(third) != d_b:
+                flags["editing_a_built_scatterer_leaks"] = False
+                witness.append("a scatterer built earlier was edited; the next build from the same values differs")
     # initial guess uses each prior's guess
     ig = model.initial_guess
     flags["initial_guess_values"] = bool(all(ig[names[idx[i]]] == pool[i].guess for i in distinct))
